@@ -172,4 +172,27 @@ def r5_trimmer_in_sync(ctx):
         ctx.floor("R5", "event-consuming success paths of the XmlRead impls", n, 4, config=cfg)
 
 
-RULES = [("R1", r1_trim_table), ("R2", r2_merge), ("R3", r3_expand), ("R4", r4_unknown_skipped), ("R5", r5_trimmer_in_sync)]
+def r6_pieces_decoded_alike(ctx):
+    """A logical text may reach the deserializer in one piece or, when a comment, PI or CDATA section is inserted,
+    in several: XmlReader::next converts the first piece and drain_text every later one.  Every conversion of a Text
+    piece inside the deserializer must therefore go through the configured entity resolver (unescape_with whose
+    closure calls EntityResolver::resolve on self.entity_resolver), none through the default-entities-only unescape()."""
+    for cfg, F in ctx.facts.items():
+        n = 0
+        for b, i, t in callers_of(F, "BytesText::unescape", "BytesText::unescape_with"):
+            if not b.loc(b.j["span"]).startswith("src/de/"):
+                continue
+            d, r = callee_of(t)
+            fn = sym.short(strip_generics(b.path))
+            n += 1
+            if name_is(d, "BytesText::unescape"):
+                ctx.ob("R6", "%s:unescape" % fn, False, "a Text piece is unescaped with the predefined entities only; the other pieces of the same text use the configured resolver", loc=b.loc(t["s"]), config=cfg)
+                continue
+            # the closure handed over must consult the resolver
+            cl = [c for c in F.bodies if strip_generics(c.path).startswith(strip_generics(b.path) + "::{closure")]
+            res = any(name_is(callee_of(t2)[0] or "", "EntityResolver::resolve") or name_is(callee_of(t2)[1] or "", "EntityResolver::resolve") for c in cl for _, t2 in c.calls())
+            ctx.ob("R6", "%s:unescape_with" % fn, res, "the piece is unescaped through self.entity_resolver", loc=b.loc(t["s"]), config=cfg)
+        ctx.floor("R6", "Text-piece conversions in the deserializer", n, 2, config=cfg)
+
+
+RULES = [("R1", r1_trim_table), ("R2", r2_merge), ("R3", r3_expand), ("R4", r4_unknown_skipped), ("R5", r5_trimmer_in_sync), ("R6", r6_pieces_decoded_alike)]
